@@ -412,6 +412,33 @@ def run_c17(ctx):
                   "named_self_lifetime" if named else "elided_lifetime",
                   "owned_leaf_in_value" if exps[i]["owned_leaves"] else "borrowed_only_value"]:
             feats[f] = feats.get(f, 0) + 1
+    # the same programs against the no_std build *with* a lock (spin-lock): the configuration must not change what
+    # a composite return reproduces, nor which requests are refused
+    n_spin = len(cases) if ctx.tier == "thorough" else min(len(cases), 2 * len(ownable) + 40)
+    spin_modules = [(i, text) for i, text in modules if i < n_spin]
+    s_events, s_errors, s_st = engine_b.build_and_run(
+        ctx, "returns_spin", spin_modules, features=("critical-section", "spin-lock"),
+        extra_deps='critical-section = { version = "1.1.2", features = ["std"] }', per_crate=60)
+    spin_checked = 0
+    for i, (t, v, mode, named) in enumerate(cases[:n_spin]):
+        if i in errors:
+            continue
+        if i in s_errors:
+            ctx.violation(f"retgen:spin:expansion-error:{json.dumps(t)}", {
+                "what": "a return type of the calibrated accepted set no longer compiles in the no_std + spin-lock build",
+                "at": f"case {i}", "case": exps[i]["type"], "expected": "compiles",
+                "observed": "; ".join(s_errors[i])[:800]})
+            continue
+        why = retgen.check(exps[i], s_events.get(i, []))
+        spin_checked += 1
+        if why:
+            ctx.violation(f"retgen:spin:{json.dumps([t, v, mode, named])}", {
+                "what": "no_std + spin-lock build: " + why, "at": f"case {i}",
+                "case": f"fn m(&self) -> {exps[i]['type']} configured {mode} with {exps[i]['value']} (no_std, spin-lock)",
+                "expected": json.dumps(exps[i]), "observed": json.dumps(s_events.get(i, []))[:800]})
+    ctx.require(spin_checked > 0, "no return case checked in the no_std + spin-lock build")
+    ctx.coverage["spin_lock_stage"] = {"programs": spin_checked, "compile_errors": len(s_errors),
+                                       "build_and_run_s": s_st.get("build_and_run_s")}
     for f in ["mode_some", "mode_each", "mode_once", "mode_n2", "mode_al1", "top_opt", "top_res", "top_vec", "top_poll", "top_tup",
               "with_ref", "owned_only", "owned_leaf_in_value", "borrowed_only_value", "named_self_lifetime"]:
         ctx.require(feats.get(f, 0) > 0, f"no return case with {f}")
